@@ -166,7 +166,56 @@ def entry_points():
             CI.ComposeInfo().loads(json.dumps(doc))
         return f
 
+    def ti_legacy(field):
+        def f(s):
+            if "\n" in s or s.strip() != s or not s:
+                s = s.replace("\n", "") .strip() or "x"
+            vals = {"family": "Fedora", "version": "20", "arch": "x86_64", "variant": "Server", "timestamp": "1386857206.0",
+                    "packagedir": "Packages"}
+            vals[field] = s.replace("%", "")
+            text = "[general]\n" + "".join("%s = %s\n" % kv for kv in sorted(vals.items()))
+            TI.TreeInfo().loads(text)
+        return f
+
+    def ti_current(section, option):
+        def f(s):
+            s = s.replace("\n", "").replace("%", "").strip() or "x"
+            from . import corruptions, samples
+            ini = corruptions.Ini(samples.treeinfo(1).dumps())
+            ini.p.set(section, option, s)
+            TI.TreeInfo().loads(ini.text())
+        return f
+
+    def img_loads(field):
+        def f(s):
+            from . import samples
+            doc = json.loads(samples.images(0).dumps())
+            doc["payload"]["images"]["Server"]["x86_64"][0][field] = s
+            IM.Images().loads(json.dumps(doc))
+        return f
+
+    def di_loads(line):
+        def f(s):
+            import productmd.discinfo
+            lines = ["1386856788.124593", "Fedora 20", "x86_64", "ALL"]
+            lines[line] = s.replace("\n", "")
+            productmd.discinfo.DiscInfo().loads("\n".join(lines))
+        return f
+
     eps = {
+        "TreeInfo.loads(legacy general/version)": ti_legacy("version"),
+        "TreeInfo.loads(legacy general/family)": ti_legacy("family"),
+        "TreeInfo.loads(legacy general/variant)": ti_legacy("variant"),
+        "TreeInfo.loads(legacy general/timestamp)": ti_legacy("timestamp"),
+        "TreeInfo.loads(release/version)": ti_current("release", "version"),
+        "TreeInfo.loads(header/version)": ti_current("header", "version"),
+        "TreeInfo.loads(tree/platforms)": ti_current("tree", "platforms"),
+        "TreeInfo.loads(checksums value)": ti_current("checksums", "images/boot.iso"),
+        "Images.loads(implant_md5)": img_loads("implant_md5"),
+        "Images.loads(path)": img_loads("path"),
+        "DiscInfo.loads(timestamp)": di_loads(0),
+        "DiscInfo.loads(disc numbers)": di_loads(3),
+        "Modules.add(uid)": lambda s: MO.Modules().add("V", "x86_64", s, "tag", "p/m.yaml", "binary", []),
         "is_valid_release_short": C.is_valid_release_short,
         "is_valid_release_version": C.is_valid_release_version,
         "is_valid_release_type": C.is_valid_release_type,
